@@ -1077,7 +1077,7 @@ func (in *c15Inliner) inline(call *ast.CallExpr, site *c15Site) ([]ast.Stmt, boo
 				cl.Body = replList(cl.Body)
 			}
 		case *ast.SelectStmt:
-			// (a return inside a comm clause leaves the helper like any other return)
+			// (simpleHelper admits selects: a return inside a comm clause is a return of the helper like any other)
 			for _, cc := range t.Body.List {
 				cl := cc.(*ast.CommClause)
 				cl.Body = replList(cl.Body)
